@@ -369,7 +369,7 @@ func genXattrs(t *rapid.T, cfg *TreeCfg, label string, kind Kind) map[string][]b
 			// the kernel refuses user.* on symlinks and special files
 			continue
 		}
-		key := space + rapid.SampledFrom([]string{"k", "key2", "a.b", "Z"}).Draw(t, label+"k")
+		key := space + rapid.SampledFrom([]string{"k", "key2", "a.b", "Z", "overlay.opaque"}).Draw(t, label+"k")
 		val := rapid.SampledFrom([][]byte{[]byte("v"), {}, []byte("with\x00nul"), []byte("longer value \xff\xfe"), []byte("=")}).Draw(t, label+"v")
 		// (trusted.* only: tmpfs charges user.* values to a per-mount budget that
 		// concurrent cases can exhaust, and a failed setxattr is ignored by design)
